@@ -178,6 +178,10 @@ def replay (j : Json) : R Verdict := do
     if (fieldD twin "sameDelivered").getBool?.toOption == some true
         && (fieldD twin "retA").compress != (fieldD twin "retB").compress then
       pf := ("C09", s!"two runs with the same inputs in which the same results were delivered in the same order returned different reports: {(fieldD twin "retA").compress} when {(fieldD twin "withheld").compress} had finished but were not yet delivered, {(fieldD twin "retB").compress} when they had not finished") :: pf
+  -- C02 (sample size 1): the reported objective value is exactly - bit for bit, negative zero included - a value the
+  -- objective function returned
+  if (fieldD stats "bestBitsOk").getBool?.toOption == some false then
+    pf := ("C02", s!"sample size 1: the reported objective value {(fieldD stats "bestText").compress} is not bit for bit any of the values the objective function returned (negative zero and zero are different values)") :: pf
   -- C02: an evaluation that had finished with a value at least one full controller round before the run returned, and
   -- whose result the controller never took, is a lost result when it beats what the run reported
   for pk in ((fieldD stats "parked").getArr?.toOption.getD #[]) do
